@@ -131,3 +131,23 @@ Theorem C05_source_arr_spec_is_the_models : forall k sx m v cnt pk, k < 0 -> is_
   end.
 Proof. exact arr_spec_model. Qed.
 Print Assumptions C05_source_arr_spec_is_the_models.
+
+(* sbdf_va_read from the source (sbdf_read_valuearray_int with a handle, then the reset of the handle on failure), for every
+   stream that does not start with the bit-array encoding byte (that branch calls sbdf_obj_create, which is not translated):
+   plain and run-length arrays of every element type, unknown encodings, truncation anywhere, negative row counts, every
+   allocation schedule.  The call returns a status and nothing else; on success the handle points at the new struct and
+   everything that was allocated follows the caller's heap; on failure the handle is null and every block the call
+   allocated has been released (the heap is the caller's followed by released blocks only); without allocation failures
+   status and stream position are the model's va_read. *)
+From Sbdf Require Import ImpFactsReadVa.
+Theorem C05_source_va_read : forall rf rp fo po k sx m h, Forall byte sx -> (forall t s2, sx <> 3 :: t :: s2) ->
+  exists f0, forall f, (f0 <= f)%nat -> exists st fin,
+    callC prog_env f prog_sbdf_va_read [VPtr rf fo; VPtr rp po] m k sx h = OReturn (VInt st) fin /\
+    prefix_of m (inb fin) /\
+    (k < 0 -> match Va.va_read false None sx with
+              | Ok (_, sM) => st = SBDF_OK /\ Imp.lookup strm_var (vars fin) = Some (VBytes sM)
+              | Err e => st = e end) /\
+    ((st = SBDF_OK /\ Imp.lookup "*handle" (vars fin) = Some (VCell (List.length h) 0) /\ exists blk newb, Imp.lookup cells_var (vars fin) = Some (VHeap (h ++ Some blk :: newb))) \/
+     (st < 0 /\ Imp.lookup "*handle" (vars fin) = Some VNull /\ exists j, Imp.lookup cells_var (vars fin) = Some (VHeap (h ++ nones j)))).
+Proof. exact va_read_source. Qed.
+Print Assumptions C05_source_va_read.
